@@ -385,6 +385,36 @@ func (x *Exec) applyContract(fc *FuncContract, key string, names []string, args 
 	if resT.Len() == 1 {
 		penv.vars["result"] = rets[0]
 	}
+	// objects the callee returns (and what they point to) refer only to objects existing after the call
+	seen := map[string]bool{}
+	var closeOver func(t types.Type, depth int)
+	closeOver = func(t types.Type, depth int) {
+		pt, ok := under(t).(*types.Pointer)
+		if !ok || depth > 2 {
+			return
+		}
+		si := x.so.structOf(pt.Elem())
+		if si == nil {
+			return
+		}
+		for i, f := range si.Fields {
+			switch under(f.T).(type) {
+			case *types.Pointer, *types.Slice, *types.Map, *types.Interface, *types.Chan:
+			default:
+				continue
+			}
+			k, srt := x.fieldKey(si, i)
+			if seen[k] {
+				continue
+			}
+			seen[k] = true
+			x.closure(k, x.heapGet(post, k, srt), nb)
+			closeOver(f.T, depth+1)
+		}
+	}
+	for i := 0; i < resT.Len(); i++ {
+		closeOver(resT.At(i).Type(), 0)
+	}
 	if fc.Def != nil && resT.Len() == 1 {
 		d := x.tr(fc.Def, env)
 		x.sc.assert(implies(reach, eq(rets[0].S, d.S)))
